@@ -56,6 +56,7 @@ func cmdRand(args []string) {
 			line, _ := json.Marshal(&c)
 			block = append(block, line)
 			cases++
+			countCase(&c)
 			key := fmt.Sprintf("%v|%v", d.Cfg, a)
 			if c.Res.Raw != baseRaw && !seen[key] {
 				nontrivial++
@@ -74,6 +75,7 @@ func cmdRand(args []string) {
 	w.Flush()
 	f.Close()
 	fmt.Printf("rand cases=%d nontrivial=%d\n", cases, nontrivial)
+	printStats()
 }
 
 // rerun -in REPLAY.json -out TRACE: run the recorded case again on the current tree.
